@@ -1,7 +1,286 @@
 import SqlObjVerif.Lemmas.Query
+/-!
+# C11 — selects, orderings, counts and aggregates equal the same query over a plain copy of the rows
+
+Property theorems only.  Quantifiers: every table `db.rows` (any length, any values, NULLs and
+duplicates), every second table `db.oth`, every filter expression, every order specification,
+every chain of `orderBy / reversed / distinct / filter` calls.
+
+What is proved: the PLAN the library builds (model of `sresults.py`, `Select.__sqlrepr__`,
+`_SO_columnClause`, `accumulateSelect`, `getOne`, the lookups; its constants are regenerated from
+/repo, see `Extracted/Query.lean`) evaluated by the REFERENCE SQL semantics (`source`, `dedup`,
+`sortBy ∘ leKeys`, `aggOf`) equals the specification: the intended comparator (`OrderArg.intent`,
+`intentKeys`), the keyword bindings (`Bound`), the folds (`foldSpec`).  That SQLite implements the
+reference semantics is modelled, and validated by execution in `harness/c11.py`.
+-/
 namespace SqlObjVerif.Query
 
+/-! ## ordering -/
+
+/-- The library state after `cls.select(…)` followed by any chain of chainable calls is the munged
+    image of the user-level description obtained by the same calls on the specification side
+    (last `orderBy` wins, `reversed()` toggles, `filter` conjoins, `distinct` sticks; without an
+    `orderBy` argument `sqlmeta.defaultOrder` is used). -/
+theorem C11_chain_refines (sch : Schema) (clause : Option Expr) (orderBy : Option OrderBy) (rev dist : Bool)
+    (ops : List SelOp) :
+    ops.foldl (Sel.apply sch) (Sel.new sch clause orderBy rev dist)
+      = Sel.ofU sch (ops.foldl USel.apply (USel.new sch clause orderBy rev dist)) := by
+  rw [new_ofU, foldl_apply_ofU]
+
+/-- The ORDER BY keys the library renders (`_mungeOrderBy`, the `reverser`, `DESC.__sqlrepr__`), read
+    back by the SQL semantics, are the intended keys: `-name` and every `DESC(…)` flip the direction of
+    that key, a reversed select flips EVERY key. -/
+theorem C11_order_plan_is_intent (sch : Schema) (joined rev : Bool) (args : List OrderArg) :
+    resolveKeys sch joined (args.map fun a => (applyReverser rev (mungeOrderBy sch a)).key)
+      = intentKeys sch joined rev args :=
+  resolveKeys_eq_intent sch joined rev args
+
+/-- **order_spec_correct.**  For every select description with resolvable keys, the rows the plan
+    denotes are a permutation of the filtered (distinct) rows and are sorted w.r.t. the intended
+    lexicographic comparator (NULLs first ascending; ties in any order). -/
+theorem C11_order_spec_correct (sch : Schema) (db : Db) (u : USel) (keys : List Key)
+    (ho : u.order ≠ .many [])
+    (hk : intentKeys sch u.clause.usesOth u.rev u.order.args = some keys) :
+    ∃ out, evalSelect sch db (Sel.ofU sch u) = some out
+      ∧ out.Perm (distinctIf u.dist (source db u.clause)) ∧ Sorted (leKeys keys) out :=
+  evalSelect_spec sch db u keys ho hk
+
+/-- the same for a select built by any chain of calls -/
+theorem C11_order_spec_correct_chain (sch : Schema) (db : Db) (clause : Option Expr) (orderBy : Option OrderBy)
+    (rev dist : Bool) (ops : List SelOp) (keys : List Key) :
+    let u := ops.foldl USel.apply (USel.new sch clause orderBy rev dist)
+    u.order ≠ .many [] → intentKeys sch u.clause.usesOth u.rev u.order.args = some keys →
+    ∃ out, evalSelect sch db (ops.foldl (Sel.apply sch) (Sel.new sch clause orderBy rev dist)) = some out
+      ∧ out.Perm (distinctIf u.dist (source db u.clause)) ∧ Sorted (leKeys keys) out := by
+  intro u ho hk
+  rw [C11_chain_refines]
+  exact evalSelect_spec sch db u keys ho hk
+
+/-- whatever the order plan, an evaluated select returns exactly the filtered (distinct) rows -/
+theorem C11_select_is_permutation (sch : Schema) (db : Db) (s : Sel) (out : List Row)
+    (h : evalSelect sch db s = some out) : out.Perm (distinctIf s.distinct (source db s.clause)) :=
+  evalRows_perm sch db (queryForSelect s) out h
+
+/-- the comparator is a total preorder, so "sorted" means what it should -/
+theorem C11_comparator_total_preorder (keys : List Key) :
+    (∀ a b, leKeys keys a b = true ∨ leKeys keys b a = true) ∧
+    (∀ a b c, leKeys keys a b = true → leKeys keys b c = true → leKeys keys a c = true) :=
+  ⟨leKeys_total keys, leKeys_trans keys⟩
+
+/-! ## reversed() -/
+
+/-- **reversed_involutive.** -/
 theorem C11_reversed_involutive (s : Sel) : s.rev.rev = s := by
   cases s; simp [Sel.rev]
+
+/-- reversing negates every intended key, not only the first -/
+theorem C11_reversed_negates_every_key (sch : Schema) (joined rev : Bool) (args : List OrderArg) :
+    intentKeys sch joined (!rev) args = (intentKeys sch joined rev args).map flipKeys :=
+  intentKeys_not_rev sch joined rev args
+
+/-- **reversed_is_reverse_order.**  The reversed select returns the same rows, sorted by the converse
+    comparator; the reverse of the original answer is such a list. -/
+theorem C11_reversed_is_reverse_order (sch : Schema) (db : Db) (u : USel) (keys : List Key)
+    (ho : u.order ≠ .many [])
+    (hk : intentKeys sch u.clause.usesOth u.rev u.order.args = some keys) :
+    ∃ out outR, evalSelect sch db (Sel.ofU sch u) = some out
+      ∧ evalSelect sch db (Sel.ofU sch u).rev = some outR
+      ∧ outR.Perm out
+      ∧ Sorted (fun a b => leKeys keys b a) outR
+      ∧ Sorted (fun a b => leKeys keys b a) out.reverse := by
+  obtain ⟨out, h1, h2, h3⟩ := evalSelect_spec sch db u keys ho hk
+  have hk' : intentKeys sch u.clause.usesOth (!u.rev) u.order.args = some (flipKeys keys) := by
+    rw [intentKeys_not_rev, hk]; rfl
+  obtain ⟨outR, r1, r2, r3⟩ := evalSelect_spec sch db { u with rev := !u.rev } (flipKeys keys) ho hk'
+  refine ⟨out, outR, h1, r1, r2.trans h2.symm, ?_, sorted_reverse _ _ h3⟩
+  have : (fun a b => leKeys keys b a) = leKeys (flipKeys keys) := by
+    funext a b; exact (leKeys_flip keys a b).symm
+  rw [this]; exact r3
+
+/-- when the keys leave no ties among the selected rows, `reversed()` is exactly list reversal -/
+theorem C11_reversed_no_ties (sch : Schema) (db : Db) (u : USel) (keys : List Key) (out outR : List Row)
+    (ho : u.order ≠ .many [])
+    (hk : intentKeys sch u.clause.usesOth u.rev u.order.args = some keys)
+    (h1 : evalSelect sch db (Sel.ofU sch u) = some out)
+    (h2 : evalSelect sch db (Sel.ofU sch u).rev = some outR)
+    (noties : ∀ a ∈ out, ∀ b ∈ out, leKeys keys a b = true → leKeys keys b a = true → a = b) :
+    outR = out.reverse := by
+  obtain ⟨out', outR', e1, e2, hp, hs, hr⟩ := C11_reversed_is_reverse_order sch db u keys ho hk
+  rw [h1] at e1; rw [h2] at e2
+  simp only [Option.some.injEq] at e1 e2
+  subst e1 e2
+  apply sorted_perm_unique (fun a b => leKeys keys b a) outR out.reverse
+    (hp.trans (List.reverse_perm out).symm) hs hr
+  intro a ha b hb hab hba
+  exact noties a (hp.mem_iff.mp ha) b (hp.mem_iff.mp hb) hba hab
+
+/-! ## keyword equalities and filters -/
+
+/-- **selectBy_sem.**  When `_SO_columnClause` accepts the keywords, the clause it builds is TRUE for
+    exactly the rows whose bound columns equal the given values (`None` ↔ NULL, an object ↦ its id),
+    under three-valued logic; every keyword was bound. -/
+theorem C11_selectBy_sem (sch : Schema) (kw : Kw) (cl : Option Expr) (h : columnClause sch kw = some cl) :
+    (∀ e : Env, holds (cl.getD .tt) e = true ↔ ∀ c v, Bound sch kw c v → e.row.get c = v.toVal)
+    ∧ (∀ kv ∈ kw, consumed kw sch.cols kv.1 = true) :=
+  ⟨clause_holds sch kw cl h, (columnClause_some sch kw cl h).1⟩
+
+/-- the rows `selectBy(**kw)` ranges over: the table filtered, order and multiplicity kept -/
+theorem C11_selectBy_rows (sch : Schema) (db : Db) (kw : Kw) (s : Sel) (h : selectBy sch kw = some s) (r : Row) :
+    r ∈ source db s.clause ↔ r ∈ db.rows ∧ ∀ c v, Bound sch kw c v → r.get c = v.toVal := by
+  have hu := selectBy_usesOth sch kw s h
+  unfold selectBy at h
+  cases hc : columnClause sch kw with
+  | none => rw [hc] at h; cases h
+  | some cl =>
+    rw [hc] at h
+    simp only [Option.map_some, Option.some.injEq] at h
+    subst h
+    rw [mem_source]
+    simp only [hu, Bool.false_eq_true, if_false]
+    have := clause_holds sch kw cl hc ⟨none, r⟩
+    simp only [Sel.new] at this ⊢
+    rw [this]
+
+/-- an unexpected keyword is refused (TypeError) and nothing else is -/
+theorem C11_selectBy_unexpected_keyword (sch : Schema) (kw : Kw) :
+    selectBy sch kw = none ↔ ∃ kv ∈ kw, consumed kw sch.cols kv.1 = false := by
+  rw [← columnClause_none]
+  unfold selectBy
+  cases columnClause sch kw <;> simp
+
+/-- `=` in place of `IS` would lose the NULL rows: `col = NULL` is never TRUE -/
+theorem C11_eq_null_never_true (c : ColRef) (r : Row) : (Cond.mk c .eq none).eval r ≠ some true := by
+  simp only [Cond.eval]
+  cases r.get c <;> simp [cmp3]
+
+/-- `filter(c)` keeps exactly the rows for which both the old clause and `c` are TRUE -/
+theorem C11_filter_sem (db : Db) (s : Sel) (c : Expr) (h1 : s.clause.usesOth = false) (h2 : c.usesOth = false) :
+    source db (s.filter (some c)).clause = (source db s.clause).filter fun r => holds c ⟨none, r⟩ := by
+  have h3 : (Expr.and s.clause c).usesOth = false := by simp [Expr.usesOth, h1, h2]
+  simp only [Sel.filter]
+  rw [source_eq_filter db _ h3, source_eq_filter db _ h1, List.filter_filter]
+  congr 1
+  funext r
+  rw [holds_and, Bool.and_comm]
+
+/-- the general (join) form: a row–partner pair passes the filtered select iff it passes both -/
+theorem C11_filter_holds (s : Sel) (c : Expr) (e : Env) :
+    holds (s.filter (some c)).clause e = (holds s.clause e && holds c e) := holds_and _ _ _
+
+/-! ## count and aggregates -/
+
+/-- **aggregate_plan (count).**  `count()` of a select is the length of the list the select returns
+    (with `distinct`: COUNT(DISTINCT id), which counts distinct rows because the id is a key). -/
+theorem C11_aggregate_plan_count (sch : Schema) (db : Db) (s : Sel) (out : List Row) (hkey : KeyIds db)
+    (h : evalSelect sch db s = some out) :
+    evalAgg sch db (countPlan s) = some (.int (some out.length)) := by
+  have hp : out.Perm (distinctIf s.distinct (source db s.clause)) :=
+    evalRows_perm sch db (queryForSelect s) out h
+  rw [evalAgg_countPlan]
+  cases hd : s.distinct with
+  | false =>
+    have hp' : out.Perm (source db s.clause) := by simpa [distinctIf, hd] using hp
+    simp [hp'.length_eq]
+  | true =>
+    have hp' : out.Perm (dedup (source db s.clause)) := by simpa [distinctIf, hd] using hp
+    simp only [if_true]
+    rw [hp'.length_eq, dedup_map_length]
+    intro a ha b hb hab
+    exact hkey a (source_subset db _ a ha) b (source_subset db _ b hb) hab
+
+/-- **aggregate_plan (sum / min / max / avg).**  The value of the accumulate plan equals the fold over
+    the column of the rows the select returns (distinct select: over the distinct column values — SQL
+    `F(DISTINCT col)`); SUM/MIN/MAX/AVG of no value is NULL. -/
+theorem C11_aggregate_plan (sch : Schema) (db : Db) (s : Sel) (out : List Row) (m : AggMethod) (t : Term) (c : ColRef)
+    (ht : sch.resolveTerm s.clause.usesOth t = some c)
+    (h : evalSelect sch db s = some out) :
+    evalAgg sch db (aggPlan s m t) = some (foldSpec m s.distinct out c) := by
+  have hp := evalRows_perm sch db (queryForSelect s) out h
+  rw [evalAgg_aggPlan sch db s m t c ht, foldSpec_eq]
+  congr 1
+  exact (aggOf_perm _ _ _ (agg_vals_perm s.distinct c (source db s.clause) out hp)).symm
+
+/-- the accumulate plan drops ORDER BY and keeps WHERE and DISTINCT: the value does not depend on
+    the order specification nor on `reversed()` -/
+theorem C11_aggregate_ignores_order (sch : Schema) (db : Db) (s : Sel) (o : DbOrder) (r : Bool) (m : AggMethod) (t : Term) :
+    evalAgg sch db (aggPlan { s with order := o, reversed := r } m t) = evalAgg sch db (aggPlan s m t)
+    ∧ evalAgg sch db (countPlan { s with order := o, reversed := r }) = evalAgg sch db (countPlan s) :=
+  ⟨rfl, rfl⟩
+
+/-- MIN is the least and MAX the greatest of the values; none when there is no value -/
+theorem C11_min_max_spec (l : List Int) :
+    (l = [] → minL l = none ∧ maxL l = none)
+    ∧ (∀ m, minL l = some m → m ∈ l ∧ ∀ x ∈ l, m ≤ x)
+    ∧ (∀ m, maxL l = some m → m ∈ l ∧ ∀ x ∈ l, x ≤ m) :=
+  ⟨fun h => ⟨(minL_spec l).1 h, (maxL_spec l).1 h⟩, (minL_spec l).2, (maxL_spec l).2⟩
+
+/-! ## getOne and the unique lookups -/
+
+/-- **getOne_012.** -/
+theorem C11_getOne_012 {α} (d : Bool) (l : List α) :
+    (l = [] → getOne d l = if d then .default else .notFound)
+    ∧ (∀ x, l = [x] → getOne d l = .value x)
+    ∧ (l.length ≥ 2 → getOne d l = .integrity) := by
+  refine ⟨?_, ?_, ?_⟩
+  · rintro rfl; cases d <;> rfl
+  · rintro x rfl; rfl
+  · intro h
+    match l, h with
+    | _ :: _ :: _, _ => simp [getOne, getOneWith, Extracted.getOneBranches, OneGuard.holds, OneAction.run]
+
+/-- **absent_key_notfound** (alternate id): no row with that key → SQLObjectNotFound, never None -/
+theorem C11_absent_key_notfound (db : Db) (c : ColRef) (v : Val) (h : ∀ r ∈ db.rows, r.get c ≠ v) :
+    fetchAlternateID db c v = .notFound := by
+  have : source db (eqOrNull c v) = [] := by
+    rw [source_eq_filter db _ (eqOrNull_usesOth c v)]
+    apply List.filter_eq_nil_iff.mpr
+    intro r hr hh
+    exact h r hr ((holds_eqOrNull c v none r).mp hh)
+  simp [fetchAlternateID, this, Extracted.altMiss]
+
+/-- a present unique key returns that row -/
+theorem C11_alt_present (db : Db) (c : ColRef) (v : Val) (r : Row) (hr : r ∈ db.rows) (hv : r.get c = v)
+    (uniq : ∀ r' ∈ db.rows, r'.get c = v → r' = r) :
+    fetchAlternateID db c v = .value r.id := by
+  have hmem : r ∈ source db (eqOrNull c v) := by
+    rw [source_eq_filter db _ (eqOrNull_usesOth c v)]
+    exact List.mem_filter.mpr ⟨hr, (holds_eqOrNull c v none r).mpr hv⟩
+  unfold fetchAlternateID
+  cases hs : source db (eqOrNull c v) with
+  | nil => rw [hs] at hmem; cases hmem
+  | cons r' t =>
+    have h' : r' ∈ source db (eqOrNull c v) := by rw [hs]; exact List.mem_cons_self
+    rw [source_eq_filter db _ (eqOrNull_usesOth c v)] at h'
+    have := List.mem_filter.mp h'
+    rw [uniq r' this.1 ((holds_eqOrNull c v none r').mp this.2)]
+
+/-- unique-index lookup = `selectBy(**kw).getOne()`: 0 matching rows → not-found, 1 → it, more → integrity error -/
+theorem C11_index_get (sch : Schema) (db : Db) (n : Nat) (kw : Kw) (s : Sel) (out : List Row)
+    (hn : kw.length = n) (hs : selectBy sch kw = some s) (ho : evalSelect sch db s = some out) :
+    indexGet sch db n kw = getOne false (out.map (·.id))
+    ∧ (∀ r, r ∈ out ↔ r ∈ db.rows ∧ ∀ c v, Bound sch kw c v → r.get c = v.toVal) := by
+  refine ⟨?_, ?_⟩
+  · simp [indexGet, hn, hs, ho]
+  · intro r
+    have hp := evalRows_perm sch db (queryForSelect s) out ho
+    have hd : s.distinct = false := by
+      unfold selectBy at hs
+      cases hc : columnClause sch kw with
+      | none => rw [hc] at hs; cases hs
+      | some cl => rw [hc] at hs; simp only [Option.map_some, Option.some.injEq] at hs; subst hs; rfl
+    simp only [queryForSelect, distinctIf, hd, Bool.false_eq_true, if_false] at hp
+    rw [hp.mem_iff, C11_selectBy_rows sch db kw s hs]
+
+/-- **absent_key_notfound** (unique index): no matching row → SQLObjectNotFound -/
+theorem C11_index_absent_notfound (sch : Schema) (db : Db) (n : Nat) (kw : Kw) (s : Sel) (out : List Row)
+    (hn : kw.length = n) (hs : selectBy sch kw = some s) (ho : evalSelect sch db s = some out)
+    (habs : ∀ r ∈ db.rows, ¬ ∀ c v, Bound sch kw c v → r.get c = v.toVal) :
+    indexGet sch db n kw = .notFound := by
+  obtain ⟨h1, h2⟩ := C11_index_get sch db n kw s out hn hs ho
+  have : out = [] := by
+    cases out with
+    | nil => rfl
+    | cons r t => exact absurd ((h2 r).mp List.mem_cons_self).2 (habs r ((h2 r).mp List.mem_cons_self).1)
+  rw [h1, this]; rfl
 
 end SqlObjVerif.Query
